@@ -39,6 +39,8 @@ func checkC03(r *Run) {
 	cursorInvariantRuleSSA(r, "R8")
 	typedNilRule(r, "R9")
 	linearPrintersRule(r, "R10")
+	r.Rule("R11", "Parse returns, and so does the next one: every function Parse reaches gives back each sync lock it takes at every exit (deferred unlocks counted) and never locks a mutex it still holds", 1)
+	lockBalanceRule(r, "R11")
 }
 
 // ---- R1 ---------------------------------------------------------------------
